@@ -544,6 +544,9 @@ func DecryptAsn1(pub *PrivateKey, data []byte) ([]byte, error) {
 *  CipherText
  */
 func CipherMarshal(data []byte) ([]byte, error) {
+	if len(data) < 1+64+32 {
+		return nil, errors.New("CipherMarshal: ciphertext too short")
+	}
 	data = data[1:]
 	x := new(big.Int).SetBytes(data[:32])
 	y := new(big.Int).SetBytes(data[32:64])
